@@ -27,8 +27,8 @@ Print Assumptions C02_outcome_unique.
    when no definition is applicable the call reads the method's own not-implemented stub, when several are applicable
    and none dominates it reads the method's own ambiguity stub, and it reads a definition's thunk only when the
    specification says that definition runs: an unresolvable call is never dispatched silently. *)
-Theorem C02_error_words : forall R C mi m args,
-  wf_registry R -> compile R = Ok C -> nth_error (r_methods R) mi = Some m -> legal R m args ->
+Theorem C02_error_words : forall R stale C mi m args,
+  wf_registry R -> compile_with stale R = Ok C -> nth_error (r_methods R) mi = Some m -> legal R m args ->
   exists cs, map (key (o_lat C)) cs = args /\
     (spec_dispatch R (meth_defs R m) args = NoDefinition -> resolve C mi (actuals_of C (m_shape m) cs) = Ok (WNi mi)) /\
     (spec_dispatch R (meth_defs R m) args = Ambiguous -> resolve C mi (actuals_of C (m_shape m) cs) = Ok (WAmb mi)) /\
